@@ -149,6 +149,8 @@ REPLAY = {f"{WS}._get_data": "bnd_c20.py", **REPLAY_EXTRA}
 def register_lifecycle(reg):
     from .c_schedule import st
     register_merger_guards(reg)
+    register_callback_component(reg)
+    register_other_components(reg)
     COMP = "finam.sdk.component.Component"
     reg.field("$hook_status", sv.Int)      # ghost: the status the component had when its hook returned
     reg.field("frozen", sv.Bool)
@@ -296,8 +298,146 @@ def register_merger_guards(reg):
     ))
 
 
+# =================================================================================================
+# CallbackComponent._update / _next_time (C01.7, C02.5): the scheduling proofs assume of IComponent.update that the inputs are requested
+# for the time the component announced as next_time; for the component finam ships this is proved here (timedelta steps; calendar
+# steps and the other bundled components: bounded stand-in bnd_components.py)
+# =================================================================================================
+CB = "finam.components.callback.CallbackComponent"
+
+
+def register_callback_component(reg):
+    from pyvc.sv import Delta
+    PUSHLOG = "$push_log"
+    reg.field("_input_infos", TDict(Str, TRef("Info")), "CallbackComponent")
+    reg.field("_step", Delta, "CallbackComponent")
+    reg.field("_callback", TObj("callback"), "CallbackComponent")
+    INS, OUTS, INFOS = "Component._inputs", "Component._outputs", "CallbackComponent._input_infos"
+    STEP = "CallbackComponent._step"
+
+    def t_now(ctx):
+        return strip_none(ctx.get(ctx.self, "_time")).e
+
+    def announced(ctx0):
+        return strip_none(ctx0.get(ctx0.self, "_time")).e + ctx0.get(ctx0.self, STEP).e
+
+    def pre(ctx):
+        s = ctx.self
+        infos, ins = ctx.get(s, INFOS), ctx.get(s, INS)
+        k = z3.Const("cbk", sv.StrS)
+        outs = ctx.get(s, OUTS)
+        return And(Not(is_none(ctx.get(s, "_time"))),
+                   z3.ForAll([k], Implies(outs.dom(k), outs.val(k).e != s.e)),       # a component is not one of its own slots
+                   z3.ForAll([k], Implies(infos.dom(k), And(ins.dom(k), ins.val(k).e > 0))))    # class invariant (_initialize adds one input per info)
+
+    def pulls(ctx, res, upto):
+        """the first `upto` inputs (in the order of the info map) were pulled, each for the announced time, nothing else was requested"""
+        l0, l1 = pull_log(ctx.old), pull_log(ctx)
+        infos, ins = ctx.old.get(ctx.self, INFOS), ctx.old.get(ctx.self, INS)
+        i, j = z3.Int(sv.uid("cpi")), z3.Int(sv.uid("cpj"))
+        parts = [l1.n == l0.n + upto,
+                 z3.ForAll([i], Implies(And(0 <= i, i < l0.n), sv.value_eq(l1.at(i), l0.at(i)))),
+                 z3.ForAll([j], Implies(And(0 <= j, j < upto),
+                                        And(Not(is_none(l1.at(l0.n + j).items[1])), strip_none(l1.at(l0.n + j).items[1]).e == announced(ctx.old),
+                                            Not(is_none(l1.at(l0.n + j).items[2])),
+                                            strip_none(l1.at(l0.n + j).items[2]).e == ins.val(infos.keys.at(j).e).e)))]
+        return And(*parts)
+
+    def c1_inv(ctx):
+        return And(pulls(ctx, None, ctx.k), t_now(ctx) == announced(ctx.old), Not(is_none(ctx.get(ctx.self, "_time"))),
+                   ctx.get(WORLD, PUSHLOG).n == ctx.old.get(WORLD, PUSHLOG).n)
+
+    def pushes_at_announced(ctx):
+        p0, p1 = ctx.old.get(WORLD, PUSHLOG), ctx.get(WORLD, PUSHLOG)
+        i = z3.Int(sv.uid("cpp"))
+        return And(p1.n >= p0.n, z3.ForAll([i], Implies(And(p0.n <= i, i < p1.n),
+                                                       And(Not(is_none(p1.at(i).items[1])), strip_none(p1.at(i).items[1]).e == announced(ctx.old)))))
+
+    def l1_inv(ctx):
+        infos = ctx.old.get(ctx.self, INFOS)
+        return And(pulls(ctx, None, infos.keys.n), t_now(ctx) == announced(ctx.old), Not(is_none(ctx.get(ctx.self, "_time"))), pushes_at_announced(ctx))
+
+    def post(ctx, r):
+        infos = ctx.old.get(ctx.self, INFOS)
+        return {"the component advances to the time it announced (next_time = time + step)": And(Not(is_none(ctx.get(ctx.self, "_time"))), t_now(ctx) == announced(ctx.old)),
+                "every input is requested once, for the announced time": pulls(ctx, None, infos.keys.n),
+                "outputs are published for the announced time": pushes_at_announced(ctx)}
+
+    reg.add(Contract(
+        f"{CB}._update", self_cls="CallbackComponent", props=["C01.7", "C02.5"], params={}, requires=pre, ensures=post,
+        modifies=lambda ctx: [(None, f) for f in RETENTION_FIELDS + ["_cached_data", "data", "_connected_inputs", "_total_mem", "$fexists"]] +
+        [(WORLD, "$pull_log"), (WORLD, PUSHLOG), (WORLD, "$notify_log"), (None, "_time")],
+        raises={"FinamTimeError": lambda ctx: z3.BoolVal(True), "FinamNoDataError": lambda ctx: z3.BoolVal(True), "FinamDataError": lambda ctx: z3.BoolVal(True),
+                "FinamStaticDataError": lambda ctx: z3.BoolVal(True), "KeyError": lambda ctx: z3.BoolVal(True)},
+        loops={"c1": dict(invariant=c1_inv, locals={"$res": TDict(Str, Pay)}), 1: dict(invariant=l1_inv)},
+        tags=["callback-component"], name="_update<CallbackComponent>",
+    ))
+    reg.add(Contract(
+        f"{CB}._next_time", self_cls="CallbackComponent", props=["C01.7", "C02.5"], params={}, pure=True, modifies=lambda ctx: [], result=Time,
+        requires=lambda ctx: Not(is_none(ctx.get(ctx.self, "_time"))),
+        ensures=lambda ctx, r: {"announces time + step": r.e == announced(ctx)}, name="_next_time<CallbackComponent>",
+    ))
+
+
+def register_other_components(reg):
+    """the same two facts for the other bundled time components with inputs: next_time announces time + step (DebugConsumer, TimeTrigger,
+    CsvWriter); TimeTrigger._update advances to it, requests its input for it and publishes for it"""
+    from pyvc.sv import Delta
+    PUSHLOG = "$push_log"
+    for cls, mod in (("DebugConsumer", "finam.components.debug"), ("TimeTrigger", "finam.components.control"), ("CsvWriter", "finam.components.writers")):
+        reg.field("_step", Delta, cls)
+        reg.add(Contract(
+            f"{mod}.{cls}._next_time", self_cls=cls, props=["C01.7", "C02.5"], params={}, pure=True, modifies=lambda ctx: [], result=Time,
+            requires=lambda ctx: And(Not(is_none(ctx.get(ctx.self, "_time"))), ctx.get(ctx.self, "Component._status").e >= 2),
+            ensures=lambda ctx, r, cls=cls: {"announces time + step": r.e == strip_none(ctx.get(ctx.self, "_time")).e + ctx.get(ctx.self, f"{cls}._step").e},
+            raises={"ValueError": lambda ctx: z3.BoolVal(False)}, name=f"_next_time<{cls}>",
+        ))
+
+    TT = "finam.components.control.TimeTrigger"
+    INS, OUTS = "Component._inputs", "Component._outputs"
+    IN, OUT = sv.const_str("In").e, sv.const_str("Out").e
+
+    def announced(ctx0):
+        return strip_none(ctx0.get(ctx0.self, "_time")).e + ctx0.get(ctx0.self, "TimeTrigger._step").e
+
+    def pre(ctx):
+        s = ctx.self
+        ins, outs = ctx.get(s, INS), ctx.get(s, OUTS)
+        return And(Not(is_none(ctx.get(s, "_time"))), ctx.get(s, "Component._status").e >= 2, ins.dom(IN), ins.val(IN).e > 0, outs.dom(OUT), outs.val(OUT).e > 0,
+                   outs.val(OUT).e != s.e, ins.val(IN).e != s.e)
+
+    def post(ctx, r):
+        l0, l1 = pull_log(ctx.old), pull_log(ctx)
+        p0, p1 = ctx.old.get(WORLD, PUSHLOG), ctx.get(WORLD, PUSHLOG)
+        inp = ctx.old.get(ctx.self, INS).val(IN).e
+        out = ctx.old.get(ctx.self, OUTS).val(OUT).e
+        return {"the component advances to the time it announced": And(Not(is_none(ctx.get(ctx.self, "_time"))), strip_none(ctx.get(ctx.self, "_time")).e == announced(ctx.old)),
+                "the input is requested once, for the announced time": And(l1.n == l0.n + 1, Not(is_none(l1.at(l0.n).items[1])), strip_none(l1.at(l0.n).items[1]).e == announced(ctx.old),
+                                                                           Not(is_none(l1.at(l0.n).items[2])), strip_none(l1.at(l0.n).items[2]).e == inp),
+                "what was pulled is published once, for the announced time": And(p1.n == p0.n + 1, p1.at(p0.n).items[0].e == out, Not(is_none(p1.at(p0.n).items[1])),
+                                                                                 strip_none(p1.at(p0.n).items[1]).e == announced(ctx.old))}
+
+    reg.add(Contract(
+        f"{TT}._update", self_cls="TimeTrigger", props=["C01.7", "C02.5"], params={}, requires=pre, ensures=post,
+        modifies=lambda ctx: [(None, f) for f in RETENTION_FIELDS + ["_cached_data", "data", "_connected_inputs", "_total_mem", "$fexists", "_time"]] +
+        [(WORLD, "$pull_log"), (WORLD, PUSHLOG), (WORLD, "$notify_log")],
+        raises={"FinamTimeError": lambda ctx: z3.BoolVal(True), "FinamNoDataError": lambda ctx: z3.BoolVal(True), "FinamDataError": lambda ctx: z3.BoolVal(True),
+                "FinamStaticDataError": lambda ctx: z3.BoolVal(True)},
+        name="_update<TimeTrigger>",
+    ))
+
+
 def install(ex):
     from .c_info import GEQ
+
+    def call_cb(ex, fn, args, kwargs, path, node):
+        c = ex.cur_contract
+        if isinstance(fn, sv.SObj) and fn.okind == "callback" and c is not None and "callback-component" in c.tags:
+            # the user callback: any mapping from output names to values (None: nothing to publish)
+            return sv.mk(TDict(Str, TOpt(TObj("payload"))), sv.uid("cbout"), ())
+        return None
+
+    ex.hooks.setdefault("call_value", []).insert(0, call_cb)
 
     def grid_eq(ex, a, b, path, node):
         c = ex.cur_contract
